@@ -34,6 +34,8 @@ def same(a, b):
 
 
 def run(ctx):
+    from xfabsa import numeric as _N
+    _N.alias_rule(ctx, 'C02', ['xfab/tools.py', 'xfab/laue.py'])
     ctx.rule("shape", "returned value == the stated matrix expression (E3, callees opaque)")
     ctx.rule("qr", "ub_to_u_b: for each of the 8 sign patterns of diag(R) the result is (Q D, D R)")
     for rel, short, two_pi in N.MODULES:
